@@ -231,14 +231,14 @@ def pairwise_sample(tuples, rnd, n, keys):
 
 
 # ---- the checks ----------------------------------------------------------------------------------------
-def finish(prop, tier, timer, traces, verdicts, controls, cverd, states, transitions, mcres, extra_cov, printed, violations):
+def finish(prop, tier, timer, traces, verdicts, controls, cverd, states, transitions, mcres, extra_cov, printed, violations, pipeline="run", assumptions=None):
     base_ok = {i for i, v in enumerate(verdicts) if not any(not c.startswith("W.") for c, _ in v)}
     ctl_total = sum(1 for i, _ in controls if i in base_ok)
     ctl_rej = sum(1 for (i, _), v in zip(controls, cverd) if i in base_ok and any(c.startswith(prop + ".") for c, _ in v))
     if base_ok and (ctl_total == 0 or ctl_rej < ctl_total):
         common.die_machinery(f"negative controls: {ctl_rej}/{ctl_total} corrupted observations rejected by a {prop} clause")
     by_clause, other, nontrivial, free = {}, {}, 0, 0
-    known = [f for f in common.load_known_findings().get("findings", []) if f.get("property") == prop and f.get("pipeline") == "run"]
+    known = [f for f in common.load_known_findings().get("findings", []) if f.get("property") == prop and f.get("pipeline") == pipeline]
     known_hit = {}
     for i, v in enumerate(verdicts):
         names = [c for c, _ in v]
@@ -262,7 +262,7 @@ def finish(prop, tier, timer, traces, verdicts, controls, cverd, states, transit
                                                                "meta": t["meta"], "reproduce": f"./check {prop} --replay <this file>"})
         violations.append({"kind": "trace", "clause": c, "count": len(lst), "replay": path})
         printed.append(f"VIOLATION property={prop} replay={path}")
-    samples = [{k: v for k, v in traces[i].items() if k != "meta"} for i in range(min(2, len(traces)))]
+    samples = [traces[i]["meta"]["sample"] if "sample" in traces[i]["meta"] else {k: v for k, v in traces[i].items() if k != "meta"} for i in range(min(2, len(traces)))]
     for s in samples:
         if "g" in s:
             s["g"] = {"base": {"exit": s["g"]["base"]["exit"]}, "variants": [{"kind": v["kind"], "exit": v["exit"]} for v in s["g"]["variants"]]}
@@ -274,7 +274,7 @@ def finish(prop, tier, timer, traces, verdicts, controls, cverd, states, transit
                 "negative_controls": {"generated": ctl_total, "rejected_by_property_clause": ctl_rej}, "free_cases_not_judged": free,
                 "clauses_of_other_properties_failing": other}
     coverage.update(extra_cov)
-    common.write_evidence(prop, tier, "model_checking", coverage, timer.s(), len(violations), ASSUMPTIONS)
+    common.write_evidence(prop, tier, "model_checking", coverage, timer.s(), len(violations), assumptions or ASSUMPTIONS)
     for line in printed:
         print(line)
     print(f"{prop} [{tier}]: {len(traces)} traces validated, {nontrivial} non-trivial, TLC states {states}, controls {ctl_rej}/{ctl_total}, violations {len(violations)}, {timer.s():.0f}s")
